@@ -32,7 +32,7 @@ deriving Repr, DecidableEq, Inhabited
 
 /-- `CommandContext` (only what `step` looks at) -/
 inductive Ctx where
-  | action | policy | recall | seal (name : Nat) | opn (name : Nat)
+  | action (name : Nat) | policy (name : Nat) | recall (name : Nat) | seal (name : Nat) | opn (name : Nat)
 deriving Repr, DecidableEq, Inhabited
 
 /-- one result of a `fact_query` iterator: `none` = `Err(MachineIOError)` -/
@@ -65,6 +65,12 @@ structure Machine where
   globals : List (Nat × Value)
   structDefs : List (Nat × List (Nat × Ty))
   factDefs : List (Nat × FactDef)
+  /-- `labels: BTreeMap<Label, usize>`, `Label = (name, LabelType)` -/
+  labels : List ((Nat × LabelType) × Nat) := []
+  /-- `action_defs`: name ↦ parameters -/
+  actionDefs : List (Nat × List (Nat × Ty)) := []
+  /-- `command_defs`: name ↦ fields -/
+  commandDefs : List (Nat × List (Nat × Ty)) := []
 deriving Inhabited
 
 structure RunState where
@@ -570,8 +576,8 @@ def exec (m : Machine) (pc : Nat) (instr : Instr) : M Ctl :=
     | .Unresolved _ => throw .unresolvedTarget
     | .Resolved n => do
       match (← getCtx) with
-      | .policy => do
-        setCtx .recall
+      | .policy c => do
+        setCtx (.recall c)
         enterFunction
         pushCall pc
         pure (.jump n)
@@ -728,8 +734,8 @@ def exec (m : Machine) (pc : Nat) (instr : Instr) : M Ctl :=
     let (name, fields) ← popStruct
     if validateStructSchema m.structDefs name fields then do
       match (← getCtx) with
-      | .policy => pure .next
-      | .recall => pure .next
+      | .policy _ => pure .next
+      | .recall _ => pure .next
       | _ => throw .badState
     else throw .invalidSchema
   | .Query => do
@@ -844,5 +850,118 @@ def run (m : Machine) (env : Nat → List IoRes) : Nat → Nat → RunState → 
     | .exited r s' => .exit r s'
     | .error e s' => .machineError e s'
     | .hostPanic => .hostPanic
+
+/-! ## entry points: `setup_*` and `call_*`
+
+`setup_function`, `setup_action`, `setup_command`, `call_action`, `call_command_policy`, `call_seal`,
+`call_open` of `machine.rs`, in the Rust order of checks.  None of them clears the value stack or
+the query-iterator stack; `setup_function` sets the pc from the label table and clears `call_state`
+and the scopes.  They contain no panicking construct (see the inventory), so `hostPanic` can only
+come from the `run` that follows. -/
+
+def lookupLabel (k : Nat × LabelType) : List ((Nat × LabelType) × Nat) → Option Nat
+  | [] => none
+  | (l, a) :: r => if l.1 = k.1 ∧ l.2 = k.2 then some a else lookupLabel k r
+
+def clearCalls : M Unit := fun s => .ok () { s with callState := [] }
+/-- `ScopeManager::clear` -/
+def clearScope : M Unit := fun s => .ok () { s with scope := [[[]]] }
+
+/-- `setup_function` (= `set_pc_by_label`, `call_state.clear()`, `scope.clear()`) -/
+def setupFunction (m : Machine) (name : Nat) (lt : LabelType) : M Unit := do
+  match lookupLabel (name, lt) m.labels with
+  | none => throw .invalidAddress
+  | some addr => do
+    setPc addr
+    clearCalls
+    clearScope
+
+def pushAll : List Value → M Unit
+  | [] => pure ()
+  | v :: r => do push v; pushAll r
+
+/-- the `for (arg, param) in args.iter().zip(params)` type check -/
+def argsFit : List Value → List (Nat × Ty) → Bool
+  | a :: as, p :: ps => a.fitsType p.2 && argsFit as ps
+  | _, _ => true
+
+/-- `setup_action` -/
+def setupAction (m : Machine) (name : Nat) (args : List Value) : M Unit := do
+  match findDef name m.actionDefs with
+  | none => throw .notDefined
+  | some params =>
+    if args.length != params.length then throw .unknown
+    else if !argsFit args params then throw .invalidType
+    else do
+      setupFunction m name .Action
+      pushAll args
+
+/-- the `for (name, value) in &this_data.fields` check of `setup_command` (`BTreeMap` order) -/
+def thisFieldsCheck (defFields : List (Nat × Ty)) : List (Nat × Value) → Except Err Unit
+  | [] => .ok ()
+  | (n, v) :: r =>
+    match findDef n defFields with
+    | none => .error .invalidStructMember
+    | some t => if v.fitsType t then thisFieldsCheck defFields r else .error .invalidType
+
+/-- `setup_command` -/
+def setupCommand (m : Machine) (lt : LabelType) (thisName : Nat) (thisFields : Fields) : M Unit := do
+  setupFunction m thisName lt
+  match findDef thisName m.commandDefs with
+  | none => throw .notDefined
+  | some fields =>
+    if thisFields.length != fields.length then throw .unknown
+    else do
+      liftE (thisFieldsCheck fields thisFields.toList)
+      push (.struct thisName thisFields)
+
+/-- an entry call with its arguments (`this`/`envelope` are `Struct`s, `payload` a byte string) -/
+inductive Entry where
+  | action (name : Nat) (args : List Value)
+  | commandPolicy (thisName : Nat) (thisFields : Fields) (envName : Nat) (envFields : Fields)
+  | seal (thisName : Nat) (thisFields : Fields) (payload : Nat)
+  | opn (thisName : Nat) (thisFields : Fields) (payload : Nat) (envName : Nat) (envFields : Fields)
+deriving Inhabited
+
+/-- everything `call_action` / `call_command_policy` / `call_seal` / `call_open` do before `self.run()` -/
+def enter (m : Machine) : Entry → M Unit
+  | .action name args => do
+    match (← getCtx) with
+    | .action c => if c = name then setupAction m name args else throw .contextMismatch
+    | _ => throw .contextMismatch
+  | .commandPolicy tn tf en ef => do
+    match (← getCtx) with
+    | .policy c =>
+      if c = tn then do
+        setupCommand m .CommandPolicy tn tf
+        push (.struct en ef)
+      else throw .contextMismatch
+    | _ => throw .contextMismatch
+  | .seal tn tf payload => do
+    match (← getCtx) with
+    | .seal c =>
+      if c = tn then do
+        setupFunction m tn .CommandSeal
+        push (.struct tn tf)
+        push (.bytes payload)
+      else throw .contextMismatch
+    | _ => throw .contextMismatch
+  | .opn tn tf payload en ef => do
+    match (← getCtx) with
+    | .opn c =>
+      if c = tn then do
+        setupFunction m tn .CommandOpen
+        push (.struct tn tf)
+        push (.bytes payload)
+        push (.struct en ef)
+      else throw .contextMismatch
+    | _ => throw .contextMismatch
+
+/-- `call_*`: the entry wrapper followed by `run` (with a step budget) -/
+def call (m : Machine) (env : Nat → List IoRes) (fuel : Nat) (e : Entry) (s : RunState) : RunOutcome :=
+  match enter m e s with
+  | .ok _ s' => run m env fuel 0 s'
+  | .err er s' => .machineError er s'
+  | .panic => .hostPanic
 
 end AranyaV.VM
